@@ -198,6 +198,9 @@ fn adjacency(model: &[Reg], s: u64, l: u64) -> &'static str {
 }
 
 fn pick_len(r: &mut Rng) -> u64 {
+    if cfg!(miri) {
+        return 1 + r.below(24);
+    }
     match r.below(10) {
         0 | 1 => 1,
         2 => 2,
